@@ -297,6 +297,13 @@ class Wsdl11(XmlSchema):
 
             if method.is_callback:
                 operation = SubElement(cb_port_type, WSDL11("operation"))
+
+            elif method.port_type is not None:
+                # the port type this method was declared for, which is also
+                # where add_bindings_for_methods() puts its binding operation
+                operation = SubElement(
+                          self._get_or_create_port_type(method.port_type),
+                                                        WSDL11("operation"))
             else:
                 operation = SubElement(port_type, WSDL11("operation"))
 
